@@ -28,6 +28,13 @@ import (
 
 type procKey struct{}
 
+// procInfo travels in the ctx of ForceFlush / Shutdown calls: which harness process made the call, in
+// which scenario (a goroutine leaked by an abandoned scenario must not speak for the current one).
+type procInfo struct {
+	name string
+	sc   int
+}
+
 // Scenario is one configuration + workload (+ optional script).
 type Scenario struct {
 	Producers    int      `json:"producers"`
@@ -197,10 +204,11 @@ func runScenario(scn int, sc Scenario, tw *vh.TraceWriter, res *vh.Result) {
 			if !ok {
 				return
 			}
-			proc, _ := ctx.Value(procKey{}).(string)
-			if proc == "" {
+			pi, _ := ctx.Value(procKey{}).(procInfo)
+			if pi.name == "" || pi.sc != scn {
 				return
 			}
+			proc := pi.name
 			if point == "bsp.ff.stopped" || point == "bsp.ff.stopch" {
 				tw.Emit(map[string]any{"ev": "FFEarly", "sc": scn, "proc": proc})
 			}
@@ -252,7 +260,7 @@ func runScenario(scn int, sc Scenario, tw *vh.TraceWriter, res *vh.Result) {
 				if sc.FlushesPer > 1 {
 					proc = fmt.Sprintf("%s.%d", name, j+1)
 				}
-				ctx := context.WithValue(context.Background(), procKey{}, proc)
+				ctx := context.WithValue(context.Background(), procKey{}, procInfo{proc, scn})
 				jitter(r, 1500)
 				sched.Arrive(proc + "@call")
 				tw.Emit(map[string]any{"ev": "Call", "sc": scn, "op": "FF", "proc": proc})
@@ -266,7 +274,7 @@ func runScenario(scn int, sc Scenario, tw *vh.TraceWriter, res *vh.Result) {
 		name := fmt.Sprintf("s%d", s+1)
 		r := rand.New(rand.NewSource(rng.Int63()))
 		start(name, func() {
-			ctx := context.WithValue(context.Background(), procKey{}, name)
+			ctx := context.WithValue(context.Background(), procKey{}, procInfo{name, scn})
 			jitter(r, 2500)
 			sched.Arrive(name + "@call")
 			tw.Emit(map[string]any{"ev": "Call", "sc": scn, "op": "SD", "proc": name})
